@@ -30,7 +30,7 @@ type C11Case struct {
 
 func init() {
 	register("C11",
-		"lintable programs (lifecycle subs with #FASTLY macros, helper subs calling each other incl. recursion and mutual recursion, functional subs, gotos, unused and duplicate declarations, ~30% injected lint errors) with include graphs over <=4 modules served by a harness resolver (present, missing, self-including, mutually including, included at root and inside a sub); oracle: Lint returns within the deadline without panic (totality, isolated worker), five runs with fresh Linter/Context give equal located multisets (determinism), a random permutation of the subroutine declarations gives the same multiset of (rule, severity, message) (order independence). non-trivial: >=2 helper subs with >=1 call edge or an include edge, and >=2 diagnostics; distinct by case",
+		"lintable programs (lifecycle subs with #FASTLY macros, helper subs calling each other incl. recursion and mutual recursion, functional subs, gotos, unused and duplicate declarations, ~30% injected lint errors) with include graphs over <=4 modules served by a harness resolver (present, missing, self-including, mutually including, included at root and inside a sub); oracle: Lint returns within the deadline without panic (totality, isolated worker), five runs with fresh Linter/Context give equal located multisets (determinism), a random permutation of the subroutine declarations gives the same multiset of (rule, severity, message) (order independence), and a statement module included in vcl_deliver / vcl_fetch gives the same diagnostics as its statements written in place of the include statement. non-trivial: >=2 helper subs with >=1 call edge or an include edge, and >=2 diagnostics; distinct by case",
 		genC11, checkC11, 20*time.Second)
 }
 
@@ -178,11 +178,26 @@ func genC11(t *rapid.T) any {
 		recvExtra = append(recvExtra, "  if (req.http.X-P) {\n    return(pass);\n  }", "  return(lookup);")
 	}
 	c.Subs = append(c.Subs, renderSub("sub vcl_recv", "recv", append(g.declares(), g.block(0, 1, 5)...), recvExtra))
-	if rapid.Bool().Draw(t, "deliver") {
-		c.Subs = append(c.Subs, renderSub("sub vcl_deliver", "deliver", append(g.declares(), g.block(0, 1, 3)...), append(calls(nUser, -1), "  return(deliver);")))
+	// a statement module included in a lifecycle subroutine other than vcl_recv, followed by statements that are
+	// only valid in that subroutine's scope and by a use of a local declared before the include statement
+	incLife := rapid.IntRange(0, 3).Draw(t, "include-in-lifecycle") == 0
+	if incLife {
+		c.Modules["sd"] = "set req.http.X-SD = \"1\";\n"
+		feat["include-in-lifecycle-sub"] = true
 	}
-	if rapid.IntRange(0, 3).Draw(t, "fetch") == 0 {
-		c.Subs = append(c.Subs, renderSub("sub vcl_fetch", "fetch", append(g.declares(), g.block(0, 1, 3)...), calls(nUser, -1)))
+	if rapid.Bool().Draw(t, "deliver") || incLife {
+		extra := calls(nUser, -1)
+		if incLife {
+			extra = append(extra, "  include \"sd\";", "  set resp.http.X-After = var.s \"1\";")
+		}
+		c.Subs = append(c.Subs, renderSub("sub vcl_deliver", "deliver", append(g.declares(), g.block(0, 1, 3)...), append(extra, "  return(deliver);")))
+	}
+	if rapid.IntRange(0, 3).Draw(t, "fetch") == 0 || incLife {
+		extra := calls(nUser, -1)
+		if incLife {
+			extra = append(extra, "  include \"sd\";", "  set beresp.ttl = 10s;", "  set var.s = \"after\";")
+		}
+		c.Subs = append(c.Subs, renderSub("sub vcl_fetch", "fetch", append(g.declares(), g.block(0, 1, 3)...), extra))
 	}
 	c.Perm = rapid.Permutation(seq(len(c.Subs))).Draw(t, "perm")
 	for k := range feat {
@@ -277,6 +292,18 @@ func checkC11(raw json.RawMessage) iso.Result {
 				return col.Done()
 			}
 		}
+	}
+	// inclusion is textual: the program with the module's statements written in place of the include statement
+	// gives the same diagnostics (locations aside)
+	if strings.Contains(src, "  include \"sd\";\n") {
+		isrc := strings.ReplaceAll(src, "  include \"sd\";\n", "  "+c.Modules["sd"])
+		in := lintWithModules(isrc, c.Modules)
+		a, b := unlocated(first.diags), unlocated(in.diags)
+		if in.panic != "" || first.fatal != in.fatal || strings.Join(a, "\n") != strings.Join(b, "\n") {
+			col.FailKey(c11Key(c, "inline"), "writing the statements of module sd in place of `include \"sd\";` changes the diagnostics (panic %q, fatal %q vs %q)\n%s\n--- with include ---\n%s\n--- inlined ---\n%s", in.panic, first.fatal, in.fatal, strDiff(a, b), numbered(src), numbered(isrc))
+			return col.Done()
+		}
+		col.Label("checked:include-equals-inlined")
 	}
 	// order independence
 	var perm []string
